@@ -1,0 +1,49 @@
+//go:build verif
+
+// Contracts for the deductive verifier under /verif (foxvc): request dispatch
+// (properties C08, C11, C12, C17). Comments only.
+
+package fox
+
+//@ package fox
+
+//@ -- The matcher's selection, abstracted: for an immutable tree (C03) the node selected for a
+//@ -- request and the trailing-slash flag are functions of the tree and of (method, host, path).
+//@ fun selNode(t *iTree, method string, host string, path string) *node
+//@ fun selTsr(t *iTree, method string, host string, path string) bool
+
+//@ -- Assumed contract of the matcher entry point (its mechanisms are specified separately under C01/C09):
+//@ -- it only writes the context's parameter buffers and tsr flag.
+//@ extern (*iTree).lookup
+//@   requires t != nil && c != nil && c.params != nil && c.tsrParams != nil && c.skipNds != nil
+//@   modifies *c.params, *c.tsrParams, *c.skipNds, c.tsr, E[Param], E[skippedNode]
+//@   ensures n == selNode(t, method, hostPort, path) && tsr == selTsr(t, method, hostPort, path)
+//@   ensures (tsr ==> n != nil) && (n != nil ==> n.route != nil)
+//@   ensures c.params != nil && c.params == old(c.params) && (lazy ==> len(*c.params) <= old(len(*c.params))) && (c.tsr ==> old(c.tsr))
+
+//@ fun reqPath(r *http.Request) string = len(r.URL.RawPath) > 0 ? r.URL.RawPath : r.URL.Path
+//@ fun sn(fox *Router, r *http.Request) *node = selNode(published[&fox.tree], r.Method, r.Host, reqPath(r))
+//@ fun st(fox *Router, r *http.Request) bool = selTsr(published[&fox.tree], r.Method, r.Host, reqPath(r))
+//@ pred tsrAllowed(r *http.Request) = r.Method != "CONNECT" && r.URL.Path != "/"
+//@ pred isDirect(fox *Router, r *http.Request) = sn(fox, r) != nil && !st(fox, r)
+//@ pred isIgnore(fox *Router, r *http.Request) = st(fox, r) && tsrAllowed(r) && sn(fox, r).route.ignoreTrailingSlash
+//@ pred isRedirect(fox *Router, r *http.Request) = st(fox, r) && tsrAllowed(r) && !sn(fox, r).route.ignoreTrailingSlash && sn(fox, r).route.redirectTrailingSlash && reqPath(r) == CleanPath(reqPath(r))
+
+//@ func (*Router).ServeHTTP props C08,C11,C12,C17 partial
+//@   requires fox != nil && r != nil && r.URL != nil && published[&fox.tree] != nil
+//@   requires fresh-writer: wFinal[w] == 0 && wBody[w] == 0
+//@   modifies heap, hCalls, wFinal, wFirst, wInfo, wBody, wFlush, wHijack, hFn, hRoute, hTsr, hScope, hNParams, hReq, sbLen
+//@   assume-at call (*cTx).reset#1 : pool-discipline: c != nil && c.params != nil && c.tsrParams != nil && c.skipNds != nil
+//@   ensures one-handler: hCalls == old(hCalls) + 1
+//@   ensures request: hReq == r
+//@   ensures direct: old(isDirect(fox, r)) ==> hFn == old(sn(fox, r).route.hall) && hRoute == old(sn(fox, r).route) && !hTsr && hScope == RouteHandler
+//@   ensures ignore: old(!isDirect(fox, r) && isIgnore(fox, r)) ==> hFn == old(sn(fox, r).route.hall) && hRoute == old(sn(fox, r).route) && hTsr && hScope == RouteHandler
+//@   ensures redirect: old(!isDirect(fox, r) && isRedirect(fox, r)) ==> hFn == old(fox.tsrRedirect) && hRoute == nil && !hTsr && hScope == RedirectHandler && hNParams == 0
+//@   ensures redirect-only-clean: hScope == RedirectHandler ==> old(isRedirect(fox, r))
+//@   ensures unserved: old(!isDirect(fox, r) && !isIgnore(fox, r) && !isRedirect(fox, r)) ==> hRoute == nil && !hTsr && hNParams == 0 && (hScope == OptionsHandler || hScope == NoMethodHandler || hScope == NoRouteHandler)
+//@   ensures options: hScope == OptionsHandler ==> hFn == old(fox.autoOptions) && old(r.Method == "OPTIONS" && fox.handleOptions)
+//@   ensures no-method: hScope == NoMethodHandler ==> hFn == old(fox.noMethod) && old(fox.handleMethodNotAllowed && !(r.Method == "OPTIONS" && fox.handleOptions))
+//@   ensures no-route: hScope == NoRouteHandler ==> hFn == old(fox.noRoute)
+//@   loop 1: invariant 0 <= i && c != nil && c.params != nil && !c.tsr && c.route == nil && len(*c.params) == 0 && c.req == r && c.scope == RouteHandler
+//@   loop 2: invariant 0 <= i#2 && c != nil && c.params != nil && c.tsrParams != nil && c.skipNds != nil && !c.tsr && c.route == nil && len(*c.params) == 0 && c.req == r && c.scope == RouteHandler
+//@   loop 3: invariant 0 <= i#3 && c != nil && c.params != nil && c.tsrParams != nil && c.skipNds != nil && !c.tsr && c.route == nil && len(*c.params) == 0 && c.req == r && c.scope == RouteHandler
